@@ -24,9 +24,13 @@ EXPIRATIONS = (None, 128, 1024, 5120)  # grid steps
 class Receiver:
     """Hashable and equal by value: two distinct receivers may compare equal."""
 
+    generations = 0
+
     def __init__(self, value, idx):
         self.value = value
         self.idx = idx
+        Receiver.generations += 1
+        self.gen = Receiver.generations
 
     def __eq__(self, other):
         return isinstance(other, Receiver) and other.value == self.value
@@ -65,6 +69,7 @@ class C12(Prop):
         from haiway import cache
 
         s = sim.source
+        Receiver.generations = 0  # per-run numbering (the event log must not depend on earlier runs)
         flavour = FLAVOURS[s.draw(4, "flavour")]
         limit = 1 + s.draw(4, "limit")
         if profile == "expiry":
@@ -77,7 +82,7 @@ class C12(Prop):
         n_a = 2 + s.draw(len(A_VALUES) - 1, "alphabet")
         ops = []
         for _ in range(n_ops):
-            k = s.weighted((12, 3, 1, 1) if profile == "history" else (8, 6, 1, 0), "op")
+            k = s.weighted((12, 3, 1, 1, 1 if n_recv else 0) if profile == "history" else (8, 6, 1, 0, 0), "op")
             if k == 0:
                 form = s.weighted((4, 2, 1, 1), "form")
                 a = s.draw(n_a, "a")
@@ -87,8 +92,10 @@ class C12(Prop):
                 ops.append(["advance", s.draw(4, "adv-kind"), s.draw(4, "adv-entry"), s.draw(3, "adv-off")])
             elif k == 2:
                 ops.append(["gc"])
-            else:
+            elif k == 3:
                 ops.append(["drop", s.draw(n_recv, "recv")])
+            else:
+                ops.append(["replace", s.draw(n_recv, "recv")])
         sim.program = {"flavour": flavour, "limit": limit, "expiration_steps": exp_steps, "receivers": n_recv,
                        "ops": ops}
 
@@ -101,7 +108,7 @@ class C12(Prop):
             counter[0] += 1
             tag = counter[0]
             rec = {"tag": tag, "bound": (typed(a), typed(b)), "recv": None if recv is None else recv.idx,
-                   "t": sim.now}
+                   "gen": None if recv is None else recv.gen, "t": sim.now}
             inv[tag] = rec
             sim.event("invoke", tag, rec["bound"], rec["recv"])
             if raise_next[0] is not None:
@@ -177,6 +184,15 @@ class C12(Prop):
                     if receivers.get(op[1]) is not None and len([r for r in receivers.values() if r is not None]) > 1:
                         receivers[op[1]] = None
                         sim.event("drop-receiver", op[1])
+                elif kind == "replace":
+                    if target is None and receivers.get(op[1]) is not None:
+                        # the old receiver dies and a new, equal one is allocated right away (CPython usually hands
+                        # out the same address again): it must not inherit the dead one's entries
+                        old_value = receivers[op[1]].value
+                        receivers[op[1]] = None
+                        receivers[op[1]] = Host(old_value, op[1])
+                        sim.stats["receiver_replaced"] += 1
+                        sim.event("replace-receiver", op[1])
                 else:
                     _k, ridx, form, ai, bi, raises = op
                     a = A_VALUES[ai]
@@ -189,7 +205,8 @@ class C12(Prop):
                         f = recv.m
                     else:
                         f = fn
-                    fkey = (ridx if recv is not None else None, form, typed(a), typed(b) if bi is not None else None)
+                    # the receiver *object* is part of the key: a replaced receiver starts a new key
+                    fkey = (recv.gen if recv is not None else None, form, typed(a), typed(b) if bi is not None else None)
                     if form == 0:
                         args, kw = (a,), {}
                     elif form == 1:
@@ -268,6 +285,9 @@ class C12(Prop):
                     if rec["bound"] != want_bound:
                         sim.fail("wrong-key", f"call with bound arguments {want_bound} was answered with the result of an "
                                  f"invocation with {rec['bound']}", flavour=flavour)
+                    if recv is not None and rec["recv"] == recv.idx and rec["gen"] != recv.gen:
+                        sim.fail("dead-receiver", f"call on a new receiver (slot #{recv.idx}) was answered with the result produced for "
+                                 f"an earlier, already collected receiver object", flavour=flavour)
                     if rec["recv"] != (recv.idx if recv is not None else None):
                         sim.fail("wrong-receiver", f"call on receiver #{recv.idx} was answered with the result produced for "
                                  f"receiver #{rec['recv']} (they compare equal but are distinct objects)", flavour=flavour)
